@@ -1,0 +1,134 @@
+//! Verification hooks. Only compiled with `--cfg typeshare_verif`; they let a
+//! test harness vary the walker thread count, perturb worker scheduling and
+//! control / record the order in which per-file results reach the collector.
+use crossbeam::channel::Receiver;
+use ignore::{DirEntry, WalkBuilder};
+use std::{
+    collections::hash_map::DefaultHasher,
+    hash::{Hash, Hasher},
+    io::Write,
+    time::Duration,
+};
+use typeshare_core::parser::ParsedData;
+
+type Item = anyhow::Result<ParsedData>;
+
+/// `TYPESHARE_VERIF_THREADS=n` sets the number of walker threads.
+pub fn tune_walker(walker_builder: &mut WalkBuilder) {
+    if let Some(n) = std::env::var("TYPESHARE_VERIF_THREADS")
+        .ok()
+        .and_then(|v| v.parse::<usize>().ok())
+    {
+        walker_builder.threads(n);
+    }
+}
+
+/// `TYPESHARE_VERIF_DELAYS=<seed>:<max_us>` sleeps a per-path pseudo random
+/// time before an entry is parsed and sent.
+pub fn before_entry(entry: &Result<DirEntry, ignore::Error>) {
+    let Ok(spec) = std::env::var("TYPESHARE_VERIF_DELAYS") else {
+        return;
+    };
+    let Some((seed, max_us)) = spec.split_once(':') else {
+        return;
+    };
+    let (Ok(seed), Ok(max_us)) = (seed.parse::<u64>(), max_us.parse::<u64>()) else {
+        return;
+    };
+    if max_us == 0 {
+        return;
+    }
+    let mut h = DefaultHasher::new();
+    seed.hash(&mut h);
+    if let Ok(e) = entry {
+        e.path().hash(&mut h);
+    }
+    std::thread::sleep(Duration::from_micros(h.finish() % max_us));
+}
+
+fn key(item: &Item) -> (u8, String, String) {
+    match item {
+        Ok(pd) => {
+            let first = pd
+                .structs
+                .iter()
+                .map(|s| s.id.original.clone())
+                .chain(pd.enums.iter().map(|e| e.shared().id.original.clone()))
+                .chain(pd.aliases.iter().map(|a| a.id.original.clone()))
+                .chain(pd.consts.iter().map(|c| c.id.original.clone()))
+                .min()
+                .unwrap_or_default();
+            (0, pd.crate_name.to_string(), first)
+        }
+        Err(_) => (1, String::new(), String::new()),
+    }
+}
+
+fn log(n: usize, item: &Item) {
+    let Ok(path) = std::env::var("TYPESHARE_VERIF_LOG") else {
+        return;
+    };
+    let (kind, krate, first) = key(item);
+    let line = format!(
+        "{{\"ev\":\"arrive\",\"n\":{n},\"err\":{},\"crate\":{:?},\"first\":{:?},\"thread\":{:?}}}\n",
+        kind == 1,
+        krate,
+        first,
+        format!("{:?}", std::thread::current().id())
+    );
+    if let Ok(mut f) = std::fs::OpenOptions::new()
+        .create(true)
+        .append(true)
+        .open(path)
+    {
+        let _ = f.write_all(line.as_bytes());
+    }
+}
+
+/// `TYPESHARE_VERIF_ORDER=perm:i,j,..|rev|seed:N` drains the channel, puts the
+/// results in a canonical order and yields them in the requested permutation.
+/// Unset: results are passed through in arrival order. `TYPESHARE_VERIF_LOG`
+/// records the delivered order either way.
+pub fn reorder(rx: Receiver<Item>) -> Box<dyn Iterator<Item = Item>> {
+    let Ok(spec) = std::env::var("TYPESHARE_VERIF_ORDER") else {
+        return Box::new(rx.into_iter().enumerate().map(|(n, item)| {
+            log(n, &item);
+            item
+        }));
+    };
+    let mut items: Vec<Item> = rx.into_iter().collect();
+    items.sort_by_key(key);
+    let n = items.len();
+    let order: Vec<usize> = if spec == "rev" {
+        (0..n).rev().collect()
+    } else if let Some(list) = spec.strip_prefix("perm:") {
+        let mut seen = vec![false; n];
+        let mut order: Vec<usize> = list
+            .split(',')
+            .filter_map(|s| s.trim().parse::<usize>().ok())
+            .filter(|&i| i < n && !std::mem::replace(&mut seen[i], true))
+            .collect();
+        order.extend((0..n).filter(|&i| !seen[i]));
+        order
+    } else if let Some(seed) = spec.strip_prefix("seed:").and_then(|s| s.parse::<u64>().ok()) {
+        let mut order: Vec<usize> = (0..n).collect();
+        let mut state = seed.wrapping_mul(0x9E37_79B9_7F4A_7C15) | 1;
+        for i in (1..n).rev() {
+            state ^= state << 13;
+            state ^= state >> 7;
+            state ^= state << 17;
+            #[allow(clippy::as_conversions)]
+            let j = (state % (i as u64 + 1)) as usize;
+            order.swap(i, j);
+        }
+        order
+    } else {
+        (0..n).collect()
+    };
+    let mut slots: Vec<Option<Item>> = items.into_iter().map(Some).collect();
+    let out: Vec<Item> = order.into_iter().filter_map(|i| slots[i].take()).collect();
+    Box::new(out.into_iter().enumerate().map(|(n, item)| {
+        log(n, &item);
+        item
+    }))
+}
